@@ -32,7 +32,23 @@ RowsSp5 == {<<IntV(a), StrV(s), BoolV(TRUE), IntV(a + 5)>> : a \in {1, 2}, s \in
 Tables5 == {[cols |-> Cols5, rows |-> r] : r \in SeqsUpTo(Rows5, 2)}
            \cup {[cols |-> Cols5, rows |-> <<r1, r2, r1>>] : r1 \in Rows5, r2 \in Rows5}
            \cup {[cols |-> Cols5, rows |-> <<r1, r2, r3>>] : r1 \in RowsSp5, r2 \in RowsSp5, r3 \in RowsSp5}
+\* rows with NULLs behind rows without: a NULL column must not show what an earlier row had there
+RowsN5 == {<<IntV(a), s, c, IF gn THEN Null ELSE IntV(a + 5)>> : a \in {1, 2}, s \in {Null, StrV(<<A, B>>)}, c \in {Null, BoolV(TRUE)}, gn \in BOOLEAN}
+FullRows5 == {<<IntV(1), StrV(<<A, B>>), BoolV(TRUE), IntV(6)>>, <<IntV(2), StrV(<<A>>), BoolV(FALSE), IntV(7)>>}
+TablesNull5 == {[cols |-> Cols5, rows |-> <<r1, rn>>] : r1 \in FullRows5, rn \in RowsN5}
+               \cup {[cols |-> Cols5, rows |-> <<r1, rn, r2, rm>>] : r1 \in FullRows5, r2 \in FullRows5, rn \in RowsN5,
+                                                                   rm \in {<<IntV(1), Null, Null, Null>>, <<IntV(2), Null, BoolV(TRUE), Null>>}}
+\* = and != are defined on NULL (NULL equals NULL only); the ordering operators are not, so they stay on the column without NULLs
+WheresNull5 == {<<>>, << <<Cmp(Col("", "a"), ">=", Lit(IntV(1)))>> >>, << <<Cmp(Col("", "s"), "=", Lit(StrV(<<A, B>>)))>> >>,
+                << <<Cmp(Col("", "s"), "!=", Lit(StrV(<<A, B>>)))>> >>, << <<Cmp(Col("", "c"), "=", Lit(BoolV(TRUE)))>> >>,
+                << <<Cmp(Col("", "a"), "=", Lit(IntV(2)))>>, <<Cmp(Col("", "g"), "=", Lit(IntV(6)))>> >>,
+                << <<Cmp(Col("", "g"), "!=", Lit(IntV(7))), Cmp(Col("", "s"), "=", Lit(StrV(<<A, B>>)))>> >>}
+ListOrdersNull5 == {[list |-> <<Star>>, order |-> <<>>], [list |-> <<Star>>, order |-> <<Ord("", "a", "desc")>>],
+                    [list |-> <<ColItem("", "s", ""), ColItem("", "a", "")>>, order |-> <<>>],
+                    [list |-> <<ColItem("", "g", ""), ColItem("", "c", ""), ColItem("", "s", "z")>>, order |-> <<>>],
+                    [list |-> <<ColItem("", "a", "x"), ColItem("", "s", "")>>, order |-> <<Ord("", "x", "asc")>>]}
 Cmps5 == {Cmp(Col("", "a"), op, Lit(IntV(n))) : op \in Ops, n \in {1, 2}}
+         \cup {Cmp(Col("", "g"), op, Lit(IntV(8))) : op \in {"<", "!="}}      \* 8: a literal that is no octal number, however it is padded
          \cup {Cmp(Col("", "s"), op, Lit(StrV(<<A, B>>))) : op \in Ops}
          \cup {Cmp(Col("", "s"), op, Lit(StrV(sp))) : op \in {"=", "!=", "<"}, sp \in SpStrs5}
          \cup {Cmp(Col("", "c"), op, Lit(BoolV(TRUE))) : op \in {"=", "!="}}
@@ -74,7 +90,11 @@ ListOrders5 ==
   \* (g = a + 5 in every row, so the alias must name a column that sorts differently: the text column)
   \cup {[list |-> <<ColItem("", "s", "g"), ColItem("", "a", "")>>, order |-> o] : o \in {<<Ord("", "g", "asc")>>, <<Ord("", "g", "desc"), Ord("", "a", "asc")>>}}
   \cup {[list |-> <<ColItem("", "a", "s"), ColItem("", "s", "a")>>, order |-> o] : o \in {<<Ord("", "s", "desc")>>, <<Ord("", "a", "asc"), Ord("", "s", "asc")>>}}
-LimOffs == {[limit |-> l, offset |-> o] : l \in {-1, 0, 1, 2, 5}, o \in {-1, 0, 1, 2, 5}}
+  \* one column listed twice under two names, or under a name and as itself: every item keeps its own heading
+  \cup {[list |-> <<ColItem("", "a", "p"), ColItem("", "a", "q")>>, order |-> o] : o \in {<<>>, <<Ord("", "q", "desc")>>}}
+  \cup {[list |-> <<ColItem("", "s", "z"), ColItem("", "s", ""), ColItem("", "a", "")>>, order |-> <<>>],
+        [list |-> <<ColItem("", "a", ""), ColItem("t5", "a", "w"), ColItem("", "g", "")>>, order |-> <<>>]}
+LimOffs == {[limit |-> l, offset |-> o] : l \in {-1, 0, 1, 2, 5, 8}, o \in {-1, 0, 1, 2, 5}} \cup {[limit |-> 1, offset |-> 8]}
 
 \* ------------------------------------------------------------------ C06
 \* three-column tables on both sides of the first join, a two-column and a one-column table after it
@@ -166,7 +186,18 @@ ListGroups7 ==
    [list |-> <<ColItem("", "q", ""), Agg("countcol", "n"), ColItem("", "p", "")>>, group |-> <<Ref("", "q"), Ref("", "p")>>],
    [list |-> <<ColItem("", "u", ""), ColItem("", "v", ""), Agg("count", ""), Agg("avg", "m")>>, group |-> <<Ref("", "u"), Ref("", "v")>>],
    [list |-> <<Agg("count", ""), ColItem("", "v", "b"), ColItem("", "u", "")>>, group |-> <<Ref("", "u"), Ref("", "b")>>],
-   [list |-> <<ColItem("", "u", ""), ColItem("", "p", ""), Agg("countcol", "n")>>, group |-> <<Ref("", "u"), Ref("", "p")>>]}
+   [list |-> <<ColItem("", "u", ""), ColItem("", "p", ""), Agg("countcol", "n")>>, group |-> <<Ref("", "u"), Ref("", "p")>>],
+   \* the same aggregate listed twice: each item is computed by itself
+   [list |-> <<Agg("avg", "m"), Agg("avg", "m")>>, group |-> <<>>],
+   [list |-> <<Agg("avg", "m"), ColItem("", "p", ""), Agg("count", ""), Agg("avg", "m"), Agg("count", "")>>, group |-> <<Ref("", "p")>>],
+   [list |-> <<Agg("countcol", "n"), Agg("avg", "q"), Agg("countcol", "n"), Agg("avg", "m"), Agg("avg", "q")>>, group |-> <<>>],
+   \* a grouping column that is not in the select list (GroupBad: to be refused, never ignored)
+   [list |-> <<Agg("count", "")>>, group |-> <<Ref("", "p")>>],
+   [list |-> <<ColItem("", "p", ""), Agg("avg", "m")>>, group |-> <<Ref("", "p"), Ref("", "q")>>],
+   \* GROUP BY without an aggregate: still one row per distinct combination
+   [list |-> <<ColItem("", "p", "")>>, group |-> <<Ref("", "p")>>],
+   [list |-> <<ColItem("", "q", ""), ColItem("", "p", "")>>, group |-> <<Ref("", "p"), Ref("", "q")>>],
+   [list |-> <<ColItem("", "u", "k")>>, group |-> <<Ref("", "k")>>]}
 \* aggregates on top of a join: the same table under two aliases, two AVGs over equally named columns
 QAgg(k, qq, c) == Item(k, Ref(qq, c), NoCmp, "")
 FromSelf7 == <<From1("t7", "x"), [tbl |-> "t7", alias |-> "y", jt |-> "inner", on |-> << <<Cmp(Col("x", "p"), "=", Col("y", "p"))>> >>]>>
@@ -180,7 +211,8 @@ JoinListGroups7 ==
 Wheres7 == {<<>>, << <<Cmp(Col("", "m"), "<", Lit(IntV(100)))>> >>, << <<Cmp(Col("", "p"), "=", Lit(IntV(1)))>>, <<Cmp(Col("", "q"), "=", Lit(IntV(3)))>> >>}
 
 Out(name, S) == PrintT(<<"SCN", ToJson([set |-> name, elems |-> SetToSeq(S)])>>)
-ASSUME /\ Out("tables5", Tables5) /\ Out("wheres5", Wheres5) /\ Out("listorders5", ListOrders5) /\ Out("limoffs", LimOffs)
+ASSUME /\ Out("tablesnull5", TablesNull5) /\ Out("wheresnull5", WheresNull5) /\ Out("listordersnull5", ListOrdersNull5)
+       /\ Out("tables5", Tables5) /\ Out("wheres5", Wheres5) /\ Out("listorders5", ListOrders5) /\ Out("limoffs", LimOffs)
        /\ Out("dbs6", Dbs6) /\ Out("froms6", Froms6) /\ Out("fromsalias6", FromsAlias6) /\ Out("lists6", Lists6)
        /\ Out("listsalias6", ListsAlias6) /\ Out("wheres6", Wheres6) /\ Out("fromssame6", FromsSame6) /\ Out("fromsambon6", FromsAmbOn6 \cup FromsChainAmb6) /\ Out("listssame6", ListsSame6)
        /\ Out("tables7", Tables7) /\ Out("listgroups7", ListGroups7) /\ Out("wheres7", Wheres7)
